@@ -1621,6 +1621,19 @@ func zeroLike(v value) value {
 	panic(fmt.Sprintf("zeroLike %T", v))
 }
 
+// chargeAlloc accounts the cells a path allocates; a path that allocates more than the bound is
+// cut like a path that exceeds the step bound (a resource bound, reported as a hang candidate),
+// so that an unbounded loop in the code under test cannot exhaust the machine's memory.
+func (i *Interp) chargeAlloc(cells int) {
+	i.allocCells += int64(cells)
+	if i.allocCells > maxAllocCells && i.initDepth == 0 {
+		i.allocCells = 0
+		panic(pathAbort{kind: "steps", msg: fmt.Sprintf("allocation bound of %d cells exceeded (step %d)", maxAllocCells, i.steps)})
+	}
+}
+
+const maxAllocCells = 64 << 20
+
 func (i *Interp) appendSlice(dst, src []value) []value {
 	n := len(dst) + len(src)
 	if n <= cap(dst) {
@@ -1637,6 +1650,7 @@ func (i *Interp) appendSlice(dst, src []value) []value {
 	if newcap < 4 {
 		newcap = 4
 	}
+	i.chargeAlloc(newcap)
 	res := make([]value, n, newcap)
 	for k := range dst {
 		res[k] = dst[k]
